@@ -342,15 +342,17 @@ import (
 func TestVerifReplay(t *testing.T) {
 	texts := []string{"plain", "a", "ab", "abc", "hello world", "<p>html &amp; \"quotes\"</p>", "new\nline\ttab", "back\\slash", "a\\nb", "\\u0041", "123", "true", "null", "[1]", "{\"a\":\"b\"}", "\"quoted\"", "\U0001F600 astral", "\x01control", " sep"}
 	for _, s := range texts {
-		for _, form := range []string{"single", "tagged", "map"} {
+		for _, form := range []string{"single", "tagged", "map", "map-long-tags"} {
 			var n NaturalLanguageValues
 			switch form {
 			case "single":
 				n = NaturalLanguageValues{{Ref: NilLangRef, Value: Content(s)}}
 			case "tagged":
 				n = NaturalLanguageValues{{Ref: "en", Value: Content(s)}}
-			default:
+			case "map":
 				n = NaturalLanguageValues{{Ref: "en", Value: Content(s)}, {Ref: "fr", Value: Content("autre " + s)}}
+			default:
+				n = NaturalLanguageValues{{Ref: "en-US", Value: Content(s)}, {Ref: "zh-Hant", Value: Content("autre " + s)}, {Ref: "x", Value: Content(s)}}
 			}
 			o := &Object{ID: "https://example.com/verif/o", Type: NoteType, Name: n}
 			data, err := o.MarshalJSON()
@@ -369,7 +371,7 @@ func TestVerifReplay(t *testing.T) {
 				continue
 			}
 			for i := range n {
-				if !bytes.Equal(got[i].Value, n[i].Value) || (form == "map" && got[i].Ref != n[i].Ref) {
+				if !bytes.Equal(got[i].Value, n[i].Value) || (len(n) > 1 && got[i].Ref != n[i].Ref) {
 					t.Errorf("json %s: text %q came back as %q (tag %q -> %q); wire %s", form, n[i].Value, got[i].Value, n[i].Ref, got[i].Ref, data)
 				}
 			}
